@@ -7,7 +7,8 @@
 //! Lattice (thorough = the full product; quick = the 2-level sub-lattice):
 //!   mode {WebRtc, Srtp, Rtp} x media {dc, audio, video, audio+video, dc+audio+video}
 //!   x bundle policy {Balanced, MaxCompat, MaxBundle} x rtcp-mux {Require, Negotiate}
-//!   x ICE {full, ice-lite on the answerer, ICE-TCP enabled, single-port UDP mux on the answerer}
+//!   x ICE {full, ice-lite on the answerer, ICE-TCP enabled, ICE-TCP only (no UDP host candidates),
+//!     single-port UDP mux on the answerer}
 //!     (WebRtc mode) | latching {off, on/probation 0, on/probation 3} x direct-mode ice-lite
 //!     {off, on the answerer} (Rtp/Srtp modes)
 //!   x sdp compatibility {Standard, LegacySip} x offerer {A, B}
@@ -52,7 +53,7 @@ struct Point {
     media: &'static str,   // dc | audio | video | audio+video | dc+audio+video
     bundle: &'static str,  // Balanced | MaxCompat | MaxBundle
     mux: &'static str,     // Require | Negotiate
-    ice: &'static str,     // WebRtc: full | lite-ans | tcp | udpmux-ans | relay-off | relay-ans ; direct: none | lite-ans
+    ice: &'static str,     // WebRtc: full | lite-ans | tcp | tcp-only | udpmux-ans | relay-off | relay-ans ; direct: none | lite-ans
     latch: &'static str,   // direct: off | p0 | p3 ; WebRtc: na
     compat: &'static str,  // Standard | LegacySip
     offerer: &'static str, // A | B
@@ -62,7 +63,7 @@ const MODES: [&str; 3] = ["WebRtc", "Srtp", "Rtp"];
 const MEDIA: [&str; 5] = ["dc", "audio", "video", "audio+video", "dc+audio+video"];
 const BUNDLES: [&str; 3] = ["Balanced", "MaxCompat", "MaxBundle"];
 const MUXES: [&str; 2] = ["Require", "Negotiate"];
-const ICE_WEBRTC: [&str; 4] = ["full", "lite-ans", "tcp", "udpmux-ans"];
+const ICE_WEBRTC: [&str; 5] = ["full", "lite-ans", "tcp", "tcp-only", "udpmux-ans"];
 const ICE_DIRECT: [&str; 2] = ["none", "lite-ans"];
 const LATCHES: [&str; 3] = ["off", "p0", "p3"];
 const COMPATS: [&str; 2] = ["Standard", "LegacySip"];
@@ -203,6 +204,8 @@ struct Timeouts {
 struct Outcome {
     /// None = every check of the oracle passed.
     fail_phase: Option<String>,
+    /// Short structural cause (reported failure reason / timeout / which streams), part of the signature.
+    cause: String,
     detail: String,
     /// Shape of the negotiated session (bundle, mux, setup, ports ...), for grouping and evidence.
     shape: String,
@@ -224,6 +227,10 @@ fn free_udp_port() -> u16 {
     std::net::UdpSocket::bind("127.0.0.1:0").and_then(|s| s.local_addr()).map(|a| a.port()).unwrap_or(0)
 }
 
+fn free_tcp_port() -> u16 {
+    std::net::TcpListener::bind("127.0.0.1:0").and_then(|s| s.local_addr()).map(|a| a.port()).unwrap_or(0)
+}
+
 fn make_cfg(p: &Point, answerer: bool, mux_port: u16, turn: Option<&IceServer>) -> RtcConfiguration {
     let mut c = RtcConfiguration::default();
     c.transport_mode = match p.mode {
@@ -243,6 +250,16 @@ fn make_cfg(p: &Point, answerer: bool, mux_port: u16, turn: Option<&IceServer>) 
     match p.ice {
         "lite-ans" => c.enable_ice_lite = answerer,
         "tcp" => c.ice_tcp_policy = IceTcpPolicy::Enabled,
+        "tcp-only" => {
+            // as in the repository's own ICE-TCP end-to-end test: no UDP host candidates; the
+            // answerer (controlled) listens passively in a port range, the offerer connects actively
+            c.ice_tcp_policy = IceTcpPolicy::Enabled;
+            c.ice_gather_udp_hosts = false;
+            if answerer {
+                c.tcp_port_range_start = Some(mux_port);
+                c.tcp_port_range_end = Some(mux_port.saturating_add(2));
+            }
+        }
         "udpmux-ans" => {
             if answerer {
                 c.ice_udp_mux = true;
@@ -377,6 +394,48 @@ async fn signal(off: &PeerConnection, ans: &PeerConnection, t: &Timeouts) -> Res
     let answer_rx = SessionDescription::parse(SdpType::Answer, &answer_txt).map_err(|e| format!("parse(answer text): {e}"))?;
     step("offerer.set_remote_description", t.signal, off.set_remote_description(answer_rx)).await?;
     Ok((offer, answer))
+}
+
+fn slug(s: &str) -> String {
+    let mut o = String::new();
+    for c in s.chars() {
+        if c.is_ascii_alphanumeric() {
+            o.push(c);
+        } else if !o.ends_with('-') {
+            o.push('-');
+        }
+    }
+    o.trim_matches('-').to_string()
+}
+
+/// "offerer.create_offer: <msg>" -> "offerer.create_offer-error" / "-timeout"
+fn step_cause(e: &str) -> String {
+    let what = e.split(':').next().unwrap_or("step");
+    if e.contains("no result within") { format!("{what}-timeout") } else { format!("{what}-error") }
+}
+
+fn dc_cause(e: &str) -> String {
+    if e.starts_with("message differs") {
+        "differs".into()
+    } else if e.starts_with("channel closed") {
+        "closed".into()
+    } else {
+        "not-delivered".into()
+    }
+}
+
+/// Reported failure reason of whichever end gave up, else "timeout".
+fn connect_cause(a: &Endpoint, b: &Endpoint) -> String {
+    let mut v = vec![];
+    for e in [a, b] {
+        let st = *e.pc.subscribe_peer_state().borrow();
+        if st == rustrtc::PeerConnectionState::Failed || st == rustrtc::PeerConnectionState::Closed {
+            v.push(format!("{:?}-{}", st, slug(&format!("{:?}", e.pc.disconnect_reason()))));
+        }
+    }
+    v.sort();
+    v.dedup();
+    if v.is_empty() { "timeout".into() } else { v.join("+") }
 }
 
 fn diag(e: &Endpoint) -> String {
@@ -579,7 +638,11 @@ async fn run_point_async(p: Point, t: Timeouts) -> Outcome {
     } else {
         None
     };
-    let mux_port = if p.ice == "udpmux-ans" { free_udp_port() } else { 0 };
+    let mux_port = match p.ice {
+        "udpmux-ans" => free_udp_port(),
+        "tcp-only" => free_tcp_port(),
+        _ => 0,
+    };
     let a_offers = p.offerer == "A";
     let ts = turn_h.as_ref().map(|h| &h.server);
     let a = match build_endpoint("A", &p, make_cfg(&p, !a_offers, mux_port, ts)) {
@@ -597,43 +660,44 @@ async fn run_point_async(p: Point, t: Timeouts) -> Outcome {
     a.pc.close();
     b.pc.close();
     out.ms = t0.elapsed().as_millis() as u64;
-    if let Err((phase, detail)) = res {
+    if let Err((phase, cause, detail)) = res {
         out.fail_phase = Some(phase);
+        out.cause = cause;
         out.detail = detail;
     }
     out
 }
 
-async fn drive(p: &Point, t: &Timeouts, a: &mut Endpoint, b: &mut Endpoint, out: &mut Outcome) -> Result<(), (String, String)> {
+async fn drive(p: &Point, t: &Timeouts, a: &mut Endpoint, b: &mut Endpoint, out: &mut Outcome) -> Result<(), (String, String, String)> {
     let a_offers = p.offerer == "A";
     // the offerer creates the (in-band, DCEP) channel before the offer; the answerer receives it
     let dc_off = if p.has_dc() {
         let e = if a_offers { &*a } else { &*b };
-        Some(e.pc.create_data_channel("c10", None).map_err(|e| ("setup".to_string(), format!("create_data_channel: {e}")))?)
+        Some(e.pc.create_data_channel("c10", None).map_err(|e| ("setup".to_string(), "api-error".to_string(), format!("create_data_channel: {e}")))?)
     } else {
         None
     };
     let (offer, answer) = {
         let (off, ans) = if a_offers { (&a.pc, &b.pc) } else { (&b.pc, &a.pc) };
-        signal(off, ans, t).await.map_err(|e| ("offer-answer".to_string(), e))?
+        signal(off, ans, t).await.map_err(|e| ("offer-answer".to_string(), step_cause(&e), e))?
     };
     out.offer = offer.to_sdp_string();
     out.answer = answer.to_sdp_string();
     out.shape = format!("offer[{}] answer[{}]", desc_shape(&offer), desc_shape(&answer));
     if offer.media_sections.len() != answer.media_sections.len() {
-        return Err(("offer-answer".into(), format!("answer has {} media sections, offer {}", answer.media_sections.len(), offer.media_sections.len())));
+        return Err(("offer-answer".into(), "section-count".into(), format!("answer has {} media sections, offer {}", answer.media_sections.len(), offer.media_sections.len())));
     }
     if let Some(s) = answer.media_sections.iter().find(|s| s.port == 0) {
-        return Err(("offer-answer".into(), format!("answer rejects the {:?} section (port 0) although both ends are configured for it", s.kind)));
+        return Err(("offer-answer".into(), "section-rejected".into(), format!("answer rejects the {:?} section (port 0) although both ends are configured for it", s.kind)));
     }
     if p.mode == "WebRtc" {
-        let roles = check_setup(&offer, &answer).map_err(|e| ("offer-answer".to_string(), e))?;
+        let roles = check_setup(&offer, &answer).map_err(|e| ("offer-answer".to_string(), "setup-roles".to_string(), e))?;
         out.shape.push_str(&format!(" setup={roles}"));
     }
     if p.mode == "Srtp" {
         for (n, d) in [("offer", &offer), ("answer", &answer)] {
             if let Some(s) = d.media_sections.iter().find(|s| attr(s, "crypto").is_none()) {
-                return Err(("offer-answer".into(), format!("{n} {:?} section has no a=crypto in Srtp mode", s.kind)));
+                return Err(("offer-answer".into(), "no-crypto".into(), format!("{n} {:?} section has no a=crypto in Srtp mode", s.kind)));
             }
         }
     }
@@ -641,8 +705,8 @@ async fn drive(p: &Point, t: &Timeouts, a: &mut Endpoint, b: &mut Endpoint, out:
     let both = async { tokio::try_join!(a.pc.wait_for_connected(), b.pc.wait_for_connected()) };
     match timeout(t.connect, both).await {
         Ok(Ok(_)) => {}
-        Ok(Err(e)) => return Err(("connect".into(), format!("{e}; {} | {}", diag(a), diag(b)))),
-        Err(_) => return Err(("connect".into(), format!("not both Connected within {:?}; {} | {}", t.connect, diag(a), diag(b)))),
+        Ok(Err(e)) => return Err(("connect".into(), connect_cause(a, b), format!("{e}; {} | {}", diag(a), diag(b)))),
+        Err(_) => return Err(("connect".into(), connect_cause(a, b), format!("not both Connected within {:?}; {} | {}", t.connect, diag(a), diag(b)))),
     }
     if p.mode == "WebRtc" {
         let sel = |e: &Endpoint| e.pc.ice_transport().get_selected_pair().map(|pr| format!("{}-{:?}", pr.local.transport, pr.local.typ)).unwrap_or_else(|| "none".into());
@@ -652,18 +716,18 @@ async fn drive(p: &Point, t: &Timeouts, a: &mut Endpoint, b: &mut Endpoint, out:
     if let Some(dc_off) = dc_off {
         let (eo, ea) = if a_offers { (&mut *a, &mut *b) } else { (&mut *b, &mut *a) };
         let (o2a, a2o) = if a_offers { ("a->b", "b->a") } else { ("b->a", "a->b") };
-        wait_dc_open(&dc_off, t.dc).await.map_err(|e| ("datachannel open".to_string(), format!("offerer's channel: {e}; {} | {}", diag(eo), diag(ea))))?;
+        wait_dc_open(&dc_off, t.dc).await.map_err(|e| ("datachannel open".to_string(), "no-open-offerer".to_string(), format!("offerer's channel: {e}; {} | {}", diag(eo), diag(ea))))?;
         let dc_ans = match timeout(t.dc, ea.dc_rx.recv()).await {
             Ok(Some(d)) => d,
-            _ => return Err(("datachannel open".into(), format!("answerer got no DataChannel event within {:?}; {} | {}", t.dc, diag(eo), diag(ea)))),
+            _ => return Err(("datachannel open".into(), "no-event-answerer".into(), format!("answerer got no DataChannel event within {:?}; {} | {}", t.dc, diag(eo), diag(ea)))),
         };
-        wait_dc_open(&dc_ans, t.dc).await.map_err(|e| ("datachannel open".to_string(), format!("answerer's channel: {e}")))?;
+        wait_dc_open(&dc_ans, t.dc).await.map_err(|e| ("datachannel open".to_string(), "no-open-answerer".to_string(), format!("answerer's channel: {e}")))?;
         let m1 = payload(&format!("dc {o2a}"), 1);
-        eo.pc.send_data(dc_off.id, &m1).await.map_err(|e| (format!("datachannel {o2a}"), format!("send_data: {e}")))?;
-        dc_expect(&dc_ans, &m1, t.dc).await.map_err(|e| (format!("datachannel {o2a}"), e))?;
+        eo.pc.send_data(dc_off.id, &m1).await.map_err(|e| (format!("datachannel {o2a}"), "send-error".to_string(), format!("send_data: {e}")))?;
+        dc_expect(&dc_ans, &m1, t.dc).await.map_err(|e| (format!("datachannel {o2a}"), dc_cause(&e), e))?;
         let m2 = payload(&format!("dc {a2o}"), 2);
-        ea.pc.send_data(dc_ans.id, &m2).await.map_err(|e| (format!("datachannel {a2o}"), format!("send_data: {e}")))?;
-        dc_expect(&dc_off, &m2, t.dc).await.map_err(|e| (format!("datachannel {a2o}"), e))?;
+        ea.pc.send_data(dc_ans.id, &m2).await.map_err(|e| (format!("datachannel {a2o}"), "send-error".to_string(), format!("send_data: {e}")))?;
+        dc_expect(&dc_off, &m2, t.dc).await.map_err(|e| (format!("datachannel {a2o}"), dc_cause(&e), e))?;
         out.transfers += 2;
     }
     // media: all streams at once (bidirectional, all sections), judged in a fixed order
@@ -674,22 +738,37 @@ async fn drive(p: &Point, t: &Timeouts, a: &mut Endpoint, b: &mut Endpoint, out:
             streams.push((dir, *k, tokio::spawn(rtp_stream(tag, k, src.clone(), rx.pc.clone(), t.rtp))));
         }
     }
-    let mut first: Option<(String, String)> = None;
+    let mut first: Option<String> = None;
     let mut all = vec![];
+    let mut lost = vec![];
+    let mut bad = vec![];
+    let total = streams.len();
     for (dir, k, h) in streams {
         let r = h.await.unwrap_or_else(|e| Err(format!("stream task: {e}")));
         match r {
             Ok(_) => out.transfers += 1,
             Err(e) => {
+                let short = format!("{}.{k}", dir.replace("->", ""));
+                if e.starts_with("no packet delivered") { lost.push(short) } else { bad.push(short) }
                 all.push(format!("{dir} {k}: {e}"));
                 if first.is_none() {
-                    first = Some((format!("rtp {dir}"), k.to_string()));
+                    first = Some(format!("rtp {dir}"));
                 }
             }
         }
     }
-    if let Some((phase, _k)) = first {
-        return Err((phase, format!("{}; {} | {}", all.join("; "), diag(a), diag(b))));
+    if let Some(phase) = first {
+        let mut cause = String::new();
+        if !lost.is_empty() {
+            cause.push_str(&format!("lost={}/{}:{}", lost.len(), total, lost.join("+")));
+        }
+        if !bad.is_empty() {
+            if !cause.is_empty() {
+                cause.push(',');
+            }
+            cause.push_str(&format!("bad={}/{}:{}", bad.len(), total, bad.join("+")));
+        }
+        return Err((phase, cause, format!("{}; {} | {}", all.join("; "), diag(a), diag(b))));
     }
     Ok(())
 }
@@ -743,8 +822,8 @@ fn phase_class(phase: &str) -> &str {
     phase.split_whitespace().next().unwrap_or(phase)
 }
 
-fn signature(p: &Point, phase: &str) -> String {
-    format!("class={}/{};phase={};{}", phase_class(phase), p.mode, phase, p.dims())
+fn signature(p: &Point, phase: &str, cause: &str) -> String {
+    format!("class={}/{};phase={};cause={};{}", phase_class(phase), p.mode, phase, cause, p.dims())
 }
 
 /// For triage: the dimension values shared by all failing points of one group.
@@ -823,32 +902,75 @@ fn main() {
     let par_s = t_par.elapsed().as_secs_f64();
 
     // false-alarm control: every failing point is re-run three times alone
-    let mut confirmed: Vec<(usize, String, String, Vec<String>)> = vec![];
+    let mut confirmed: Vec<(usize, String, String, String, Vec<String>)> = vec![];
     let mut flaky: Vec<Value> = vec![];
     let mut machinery: Vec<String> = vec![];
     let mut reruns = 0u64;
     let t_conf = Instant::now();
-    for (i, o) in outcomes.iter().enumerate() {
-        let Some(ph) = &o.fail_phase else { continue };
+    // "Alone" = outside the bulk pass. With up to 4 failing points the re-runs are strictly
+    // sequential; with more, at most CONFIRM_POOL (4) single-point re-runs share the 16-core box
+    // (each is a handful of mostly idle tasks), which keeps a lattice region broken by a genuine
+    // defect from costing minutes. Concurrency can only add failures, and a verdict needs 4/4.
+    let failing: Vec<usize> = outcomes.iter().enumerate().filter(|(_, o)| o.fail_phase.is_some()).map(|(i, _)| i).collect();
+    let confirm_pool: usize = std::env::var("C10_CONFIRM_POOL").ok().and_then(|s| s.parse().ok()).unwrap_or(if failing.len() <= 4 { 1 } else { 4 });
+    let reran: Vec<Vec<Outcome>> = {
+        let next = AtomicUsize::new(0);
+        let res: Vec<std::sync::Mutex<Vec<Outcome>>> = failing.iter().map(|_| std::sync::Mutex::new(vec![])).collect();
+        std::thread::scope(|s| {
+            for _ in 0..confirm_pool.max(1) {
+                s.spawn(|| {
+                    loop {
+                        let k = next.fetch_add(1, Ordering::SeqCst);
+                        if k >= failing.len() {
+                            break;
+                        }
+                        let i = failing[k];
+                        let ph = outcomes[i].fail_phase.clone();
+                        let mut v = vec![];
+                        for _ in 0..3 {
+                            let r = run_point(&points[i], &t);
+                            let same = r.fail_phase == ph;
+                            v.push(r);
+                            if !same {
+                                break; // already known not to fail every time in the same phase
+                            }
+                        }
+                        *res[k].lock().unwrap() = v;
+                    }
+                });
+            }
+        });
+        res.into_iter().map(|m| m.into_inner().unwrap()).collect()
+    };
+    for (k, &i) in failing.iter().enumerate() {
+        let o = &outcomes[i];
+        let ph = o.fail_phase.as_ref().unwrap();
         let mut phases = vec![ph.clone()];
         let mut details = vec![o.detail.clone()];
-        for _ in 0..3 {
-            let r = run_point(&points[i], &t);
+        let mut causes = vec![o.cause.clone()];
+        for r in &reran[k] {
             reruns += 1;
             phases.push(r.fail_phase.clone().unwrap_or_else(|| "ok".into()));
-            details.push(r.detail);
-            if phases.last() != Some(ph) {
-                break; // already known not to fail every time in the same phase
-            }
+            details.push(r.detail.clone());
+            causes.push(r.cause.clone());
         }
         if phases.iter().all(|x| x == ph) && phases.len() == 4 {
             if ph == "machinery" {
                 machinery.push(format!("{}: {}", points[i].dims(), o.detail));
             } else {
-                confirmed.push((i, ph.clone(), details.last().cloned().unwrap_or_default(), details));
+                // the cause reported most often over the four runs (ties: smallest) keys the signature
+                let mut cnt: BTreeMap<&String, usize> = BTreeMap::new();
+                for c in &causes {
+                    *cnt.entry(c).or_default() += 1;
+                }
+                let best = cnt.iter().max_by(|x, y| x.1.cmp(y.1).then(y.0.cmp(x.0))).map(|x| (*x.0).clone()).unwrap_or_default();
+                confirmed.push((i, ph.clone(), best, details.last().cloned().unwrap_or_default(), details));
             }
         } else {
-            flaky.push(json!({"point": points[i].dims(), "phases": phases, "first_detail": vh::truncate(&o.detail, 300)}));
+            // "reported" = an endpoint itself reported failure (not a harness timeout): such an
+            // unstable failure points at a race in the library rather than at box load.
+            let kind = if o.cause.contains("timeout") || o.cause.starts_with("lost=") || o.cause == "not-delivered" || o.cause.starts_with("no-") { "timeout" } else { "reported" };
+            flaky.push(json!({"point": points[i].dims(), "phases": phases, "causes": causes, "kind": kind, "first_detail": vh::truncate(&o.detail, 300)}));
         }
     }
     let conf_s = t_conf.elapsed().as_secs_f64();
@@ -902,6 +1024,7 @@ fn main() {
     rep.set("shape_classes", json!(shapes.iter().map(|(k, v)| json!({"class": k, "points": v})).collect::<Vec<_>>()));
     rep.set("timeouts_ms", json!({"signal_step": t.signal.as_millis() as u64, "connect": t.connect.as_millis() as u64, "datachannel_step": t.dc.as_millis() as u64, "rtp_stream": t.rtp.as_millis() as u64}));
     rep.set("parallel_pool", pool as u64);
+    rep.set("confirmation_pool", confirm_pool as u64);
     rep.set("parallel_pass_s", par_s);
     rep.set("confirmation_pass_s", conf_s);
     rep.set("caps_hit", Value::Array(vec![]));
@@ -910,12 +1033,12 @@ fn main() {
         rep.sample(json!({"point": points[k].to_json(), "outcome": o.fail_phase.clone().unwrap_or_else(|| "ok".into()), "transfers": o.transfers, "ms": o.ms, "shape": o.shape}));
     }
     rep.assume("both ends bind 127.0.0.1 (bind_ip) — the property is stated for a loopback network; every other RtcConfiguration field not named by the lattice keeps its default on both ends");
-    rep.assume("'within the configured timeouts' is judged with a real-time grace (timeouts_ms) far above the ~50 ms a loopback connect takes and below ice_connection_timeout; a failing point is re-run three times alone and only counts if it fails every time in the same phase");
+    rep.assume("'within the configured timeouts' is judged with a real-time grace (timeouts_ms) far above the ~50 ms a loopback connect takes and below ice_connection_timeout; a failing point is re-run three times outside the bulk pass (strictly one at a time when at most 4 points fail, otherwise at most confirmation_pool single-point runs at a time) and only counts if it fails every time in the same phase");
     rep.assume("'an RTP packet arrives intact': the sender pushes one distinct sample every 20 ms until the peer's receiver track delivers one (RTP is unreliable; the first packets may legitimately be consumed by latching probation or arrive before the receive path is armed); every delivered sample must be byte-equal to a sample pushed on exactly that stream");
     rep.assume("PeerConnection exposes neither the DTLS handle nor the SRTP keys: complementary roles are checked on the a=setup attributes of offer/answer plus 'both handshakes completed'; identical SRTP keys are observed as SRTP-protected RTP being unprotected and delivered in each direction (bit-level exporter equality is C11's)");
     rep.assume("endpoints A and B are configured identically apart from construction order and the role-bound options (ice-lite / udp-mux / relay policy follow the answerer), so offerer=B is the mirror run of offerer=A");
     rep.assume("bundle_policy and (in WebRtc mode) enable_ice_lite are enumerated because they are part of the configuration surface, but the pinned source never reads them outside src/config.rs / the Rtp-mode SDP builder");
-    rep.assume("residue: STUN-server (srflx), UPnP and external_ip/external_port configurations need infrastructure that does not exist offline; ICE-TCP is enumerated with UDP host candidates also gathered (ice_gather_udp_hosts default)");
+    rep.assume("residue: STUN-server (srflx), UPnP and external_ip/external_port configurations need infrastructure that does not exist offline; ice=tcp gathers UDP and TCP candidates on both ends (the UDP pair wins on loopback), ice=tcp-only removes the UDP host candidates so the selected pair is TCP (answerer passive in tcp_port_range, offerer active), as in src/transports/ice/tests.rs test_ice_tcp_end_to_end_connectivity");
 
     // vacuity
     if !filtered {
@@ -929,18 +1052,18 @@ fn main() {
 
     // violations, grouped for triage
     let mut groups: BTreeMap<String, Vec<&Point>> = BTreeMap::new();
-    for (i, ph, _, _) in &confirmed {
+    for (i, ph, _, _, _) in &confirmed {
         groups.entry(format!("{}/{}", ph, points[*i].mode)).or_default().push(&points[*i]);
     }
     let triage: Vec<Value> = groups.iter().map(|(g, ps)| json!({"group": g, "failing_points": ps.len(), "values_present": common_factors(ps)})).collect();
     rep.set("failure_groups", Value::Array(triage));
-    for (i, ph, detail, details) in confirmed {
+    for (i, ph, cause, detail, details) in confirmed {
         let p = &points[i];
         let g = &groups[&format!("{}/{}", ph, p.mode)];
         rep.violation(Violation {
-            signature: signature(p, &ph),
+            signature: signature(p, &ph, &cause),
             detail: format!("{} fails in phase '{}' on 4/4 runs (3 alone): {} [group of {} points, values present: {}]", p.dims(), ph, detail, g.len(), common_factors(g)),
-            replay: json!({"point": p.to_json(), "phase": ph, "details": details, "shape": outcomes[i].shape, "offer": outcomes[i].offer, "answer": outcomes[i].answer}),
+            replay: json!({"point": p.to_json(), "phase": ph, "cause": cause, "details": details, "shape": outcomes[i].shape, "offer": outcomes[i].offer, "answer": outcomes[i].answer}),
         });
     }
     for f in &flaky {
